@@ -1790,8 +1790,11 @@ class SessionCache(object):
             if local.debug: log_orm('CONNECTION FAILED: %s' % exc)
             connection = cache.connection
             assert connection is not None
+            in_transaction = cache.in_transaction
             cache.connection = None
-            provider.drop(connection, cache)
+            provider.drop(connection, cache)  # resets cache.in_transaction
+            if in_transaction: throw(ConnectionClosedError,
+                'Transaction cannot be continued because database connection failed')
         else: assert cache.connection is None
         return cache.connect()
     def prepare_connection_for_query_execution(cache):
